@@ -2,6 +2,7 @@ package gabi
 
 import (
 	"github.com/privacybydesign/gabi/big"
+	"github.com/privacybydesign/gabi/gabikeys"
 	"github.com/privacybydesign/gabi/revocation"
 )
 
@@ -102,6 +103,8 @@ func vpC07_O3() {
 	m2, err := b.CommitToSecretAndProve(n1b)
 	vpAssume(err == nil)
 	pu2 := m2.Proofs[0].(*ProofU)
+	// the retried commitment message is an honest one: the issuer accepts it for the new nonce
+	vpAssert("a retried commitment message verifies at the issuer", m2.Proofs.Verify([]*gabikeys.PublicKey{pk}, ctx, n1b, false, nil))
 	r1 := vpImplied(pu1.SResponse, pu1.C, secret)
 	r2 := vpImplied(pu2.SResponse, pu2.C, secret)
 	vpAssert("two issuance commitments of one builder use different secret-key randomisers", r1.Cmp(r2) != 0)
